@@ -112,7 +112,14 @@ func c03Gen(rng *verifsim.RNG, idx int, tier string) *Plan {
 		p.Class += "+deprecated"
 		v := time.Duration(rng.Range(500, 4000)) * time.Millisecond
 		q := time.Duration(1 + rng.Int63n(int64(v)))
-		s.Prefixes = append(s.Prefixes, PrefixSpec{Prefix: sp("2001:db8:dead::/64"), Deprecated: true, Valid: sp(v.String()), Preferred: sp(q.String())})
+		dp := PrefixSpec{Prefix: sp("2001:db8:dead::/64"), Deprecated: true, Valid: sp(v.String()), Preferred: sp(q.String())}
+		if rng.Bool(0.15) {
+			// preferred lifetime left to its default, which exceeds this valid
+			// lifetime: documented as rejected; should it ever be accepted, the
+			// RA must still mean what was configured
+			dp.Preferred = nil
+		}
+		s.Prefixes = append(s.Prefixes, dp)
 		r := time.Duration(rng.Range(500, 4000)) * time.Millisecond
 		s.Routes = append(s.Routes, RouteSpec{Prefix: sp("2001:db8:dead::/48"), Deprecated: true, Lifetime: sp(r.String())})
 		for _, d := range []time.Duration{v, q, r} {
